@@ -33,7 +33,15 @@ MONITORED = [
     ("dtaidistance.similarity", ["distance_to_similarity", "squash"]),
 ]
 RULE = RULE % sum(len(v) for _, v in MONITORED)
-PLAN = Plan("C20", RULE, ASSUME,
+def _own_suite(tier, seed, scratch):
+    """thorough: the repository's own unedited tests are one more workload under this property's monitors"""
+    if tier != "thorough":
+        return None, None, None
+    from vf import ownsuite
+    return ownsuite.run(scratch, "purity", "C20")
+
+
+PLAN = Plan("C20", RULE, ASSUME, native=_own_suite,
             workers={"quick": [("plain", 14, "C20"), ("plain-nonumpy", 2, "C20")],
                      "thorough": [("plain", 11, "C20"), ("asan", 3, "C20"), ("plain-nonumpy", 2, "C20")]},
             deciding=("purity_snapshots_compared", "container_equivalence_checks", "history_checks",
